@@ -46,8 +46,12 @@ Fixpoint substvar_loop (name : str) (i : str) : outcome (possi * str) :=
   | [] => Err
   | c :: r => if eqc c 0 then Err
               else if eqc c 125 then
-                Ok ({| p_name := name; p_arch := None; p_archs := None; p_stages := [];
-                       p_ver := None; p_subst := true |}, r)
+                (* a substvar is a whole alternative: blanks, then ',' '|' or the end (repair of the r12 finding "${foo} bar") *)
+                let r' := eat_ws r in
+                if eqc (peek r') 44 || eqc (peek r') 124 || eqc (peek r') 0 then
+                  Ok ({| p_name := name; p_arch := None; p_archs := None; p_stages := [];
+                         p_ver := None; p_subst := true |}, r')
+                else Err
               else substvar_loop (name ++ enc c) r
   end.
 Definition parse_substvar (i : str) : outcome (possi * str) :=
@@ -200,7 +204,7 @@ Fixpoint possi_loop (fuel : nat) (p : possi) (rel : relation) (i : str) : outcom
       match parse_multiarch i with
       | Ok (a, i) => possi_loop f (set_arch p a) rel i
       | Err => Err | OutOfFuel => OutOfFuel end
-    else if is_ws c || eqc c 40 then
+    else if is_ws c || eqc c 40 || eqc c 91 || eqc c 60 then
       match controllers f p i with
       | Ok (p, i) => possi_loop f p rel i
       | Err => Err | OutOfFuel => OutOfFuel end
